@@ -67,7 +67,7 @@ PROPS = {
     },
     "C06": {
         "level": "exploration",
-        "rule": "c06_prss: run = endpoints negotiated over the simulated network or made by make_participants, 1..24 seeded (step, index, width) queries with widths {1,2,16,2048 blocks = the offset cap} "
+        "rule": "c06_prss: run = endpoints negotiated over the simulated network or made by make_participants, 1..24 seeded (step, index, width) queries over short and long (>100-byte common prefix) step names with widths {1,2,16,2048, 2049 blocks = up to and including the last permitted offset} "
                 "and a sequential generator per helper; c06_xshard: gen_and_distribute on 3 helpers x {2,3,5} shards; reuse monitor: the debug-build UsedSet detector is armed in the fault-free workloads of "
                 "C01/C04/C05/C07 (MAC batches over (records, active) grids incl. out-of-order batch completion, DZKP proof batches, select/sat_sub/share conversion, sharded shuffles over row counts x shards, whole hybrid queries incl. three aggregation layers) - a run is non-trivial iff it drew PRSS values on >=2 helpers; distinct by (shape, schedule digest)",
         "scenarios": [
@@ -229,7 +229,7 @@ PROPS = {
     },
     "C18": {
         "level": "exploration",
-        "rule": "run = 3 helpers x {1,2,3} shards of real HelperApps; one client issues a seeded history of 3..16 calls over {new_query, inputs to one/all nodes, query_status, complete on one/all leaders, kill} addressed to "
+        "rule": "run = 3 helpers x {1,2,3} shards of real HelperApps; one client issues a seeded history of 3..16 calls over {new_query, inputs to one/all nodes, query_status (a third of them as two simultaneous requests from two client tasks), complete on one/all leaders, kill} addressed to "
                 "arbitrary nodes, optionally with one node rejecting its n-th prepare request (F6); query tasks (TestMultiply) run in the background under the seeded schedule; a reference state machine "
                 "(absent / awaiting inputs / running-maybe-finished / completed / unknown-after-failed-create) predicts the class of every answer; non-trivial iff >=1 multi-choice decision; distinct by (history shape, schedule digest)",
         "scenarios": [
@@ -276,7 +276,7 @@ MANIFEST_TEXT = {
     "C18": {
         "text": "Seeded exploration of query-lifecycle histories against a reference state machine, on real Processors/HelperApps wired through the repo's in-memory MPC rings and shard mesh, with real (cheap) query tasks running in the background under the controlled scheduler. Judged: an invalid request is refused and later answers are consistent with an unchanged state; a failed creation leaves no entry on the node that executed it; results are handed out once and afterwards a new query can be created (also on sharded helpers); the leader's status lies between the minimum of its shards' possible statuses; no call sequence whose tasks return makes a helper panic or the client hang. Two genuine defects were repaired (fix: c063277, 9a5b724); one (residue after a failed create -> peer panics) is a known finding. Sampling, not proof.",
         "design_ref": "DESIGN.md section 4, C18 and section 7",
-        "note": "single sequential client (background tasks are the concurrency); panics inside the in-memory transport's acknowledgement path and after shuttle's non-cancelling abort are stub artefacts and are counted, not judged; residue on OTHER nodes after a failed create is modelled as 'unknown' (the code documents the missing rollback)",
+        "note": "one client, sequential except for pairs of simultaneous status requests (background query tasks are the other concurrency); panics inside the in-memory transport's acknowledgement path and after shuttle's non-cancelling abort are stub artefacts and are counted, not judged; residue on OTHER nodes after a failed create is modelled as 'unknown' (the code documents the missing rollback)",
         "technique": "deterministic simulation: seeded API-history + schedule search against an executable reference state machine",
     },
     "C12": {
